@@ -30,6 +30,21 @@ class Decoder final
 public:
     std::vector<std::shared_ptr<Packet>> decode(const void* data, const std::size_t size);
 
+#ifdef ASAM_CMP_VERIF
+    // Verification hook (read-only): the pending reassembly table.
+    struct VerifPending
+    {
+        uint16_t deviceId;
+        uint8_t streamId;
+        uint8_t segmentType;
+        uint8_t version;
+        uint8_t messageType;
+        uint16_t lastCounter;
+        std::vector<uint8_t> buffer;
+    };
+    std::vector<VerifPending> verifPending() const;
+#endif
+
 private:
     static bool isSegmentedPacket(const uint8_t* data, const size_t);
     static bool isFirstSegment(const uint8_t* data, const size_t);
@@ -76,6 +91,9 @@ private:
         std::shared_ptr<Packet> getPacket();
 
     private:
+#ifdef ASAM_CMP_VERIF
+        friend class Decoder;
+#endif
         MessageHeader* getHeader();
         bool isValidSegmentType(SegmentType type) const;
 
@@ -91,5 +109,21 @@ private:
 private:
     SegmentedPackets segmentedPackets;
 };
+
+#ifdef ASAM_CMP_VERIF
+inline std::vector<Decoder::VerifPending> Decoder::verifPending() const
+{
+    std::vector<VerifPending> result;
+    for (const auto& entry : segmentedPackets)
+        result.push_back({entry.first.deviceId,
+                          entry.first.streamId,
+                          static_cast<uint8_t>(entry.second.segmentType),
+                          entry.second.curVersion,
+                          static_cast<uint8_t>(entry.second.curMessageType),
+                          entry.second.curSegment,
+                          entry.second.payload});
+    return result;
+}
+#endif
 
 END_NAMESPACE_ASAM_CMP
